@@ -334,6 +334,14 @@ func (s *c24State) apply(op c24Op, check bool, hist []c24Op) {
 			s.c.violation(fmt.Sprintf("C24|configuration-not-defaulted|%s|fields=%s", sig, strings.Join(d, "+")),
 				fmt.Sprintf("after %s(%s) GetExportOptions differs from the construction-default model in %v (e.g. TransferSize=%d Timeouts=%+v MaxWorkers=%d)", op.Call, op.Name, d, got.TransferSize, got.Timeouts, got.MaxWorkers), cs())
 		}
+		// all-or-nothing also means the live components follow the configuration the
+		// server reports: the caches and the worker pool have the reported sizes / TTLs
+		if !rejected {
+			if d := s.components(got); len(d) > 0 {
+				s.c.violation(fmt.Sprintf("C24|components-disagree-with-reported-configuration|%s|fields=%s", sig, strings.Join(d, "+")),
+					fmt.Sprintf("after %s(%s) GetExportOptions reports a configuration the live components do not have: %v", op.Call, op.Name, s.componentsDetail(got)), cs())
+			}
+		}
 		// the server keeps serving (reported only when it did before this update, so that
 		// a defect is attributed to the update that introduced it)
 		ro := got.ReadOnly
@@ -350,6 +358,54 @@ func (s *c24State) apply(op c24Op, check bool, hist []c24Op) {
 		}
 	}
 	s.model = got // continue from the reported configuration
+}
+
+// components compares the reported configuration with the state of the attribute
+// cache, the directory cache and the worker pool (unexported fields, read under
+// their locks).
+func (s *c24State) componentsDetail(o ExportOptions) []string {
+	var d []string
+	n := s.e.nfs
+	if ac := n.attrCache; ac != nil {
+		ac.mu.RLock()
+		if ac.maxSize != o.AttrCacheSize {
+			d = append(d, fmt.Sprintf("AttrCacheSize: reported %d, cache %d", o.AttrCacheSize, ac.maxSize))
+		}
+		if ac.ttl != o.AttrCacheTimeout {
+			d = append(d, fmt.Sprintf("AttrCacheTimeout: reported %v, cache %v", o.AttrCacheTimeout, ac.ttl))
+		}
+		if ac.enableNegative != o.CacheNegativeLookups {
+			d = append(d, fmt.Sprintf("CacheNegativeLookups: reported %v, cache %v", o.CacheNegativeLookups, ac.enableNegative))
+		}
+		if o.CacheNegativeLookups && ac.negativeTTL != o.NegativeCacheTimeout {
+			d = append(d, fmt.Sprintf("NegativeCacheTimeout: reported %v, cache %v", o.NegativeCacheTimeout, ac.negativeTTL))
+		}
+		ac.mu.RUnlock()
+	}
+	if dc := n.dirCache; dc != nil {
+		dc.mu.RLock()
+		if dc.maxEntries != o.DirCacheMaxEntries {
+			d = append(d, fmt.Sprintf("DirCacheMaxEntries: reported %d, cache %d", o.DirCacheMaxEntries, dc.maxEntries))
+		}
+		if dc.timeout != o.DirCacheTimeout {
+			d = append(d, fmt.Sprintf("DirCacheTimeout: reported %v, cache %v", o.DirCacheTimeout, dc.timeout))
+		}
+		dc.mu.RUnlock()
+	}
+	if wp := n.workerPool; wp != nil {
+		if mw, _, _ := wp.Stats(); mw != o.MaxWorkers {
+			d = append(d, fmt.Sprintf("MaxWorkers: reported %d, pool %d", o.MaxWorkers, mw))
+		}
+	}
+	return d
+}
+
+func (s *c24State) components(o ExportOptions) []string {
+	var f []string
+	for _, x := range s.componentsDetail(o) {
+		f = append(f, x[:strings.Index(x, ":")])
+	}
+	return f
 }
 
 func (s *c24State) serve(sig string, readOnly bool) (probs [][2]string) {
@@ -394,7 +450,7 @@ func init() {
 	vRegister(&vCheck{
 		id: "C24", level: "model_checking", flavour: "vtime",
 		shards: func(string) int { return 15 },
-		rule: "breadth-first search over sequences (depth 3, thorough 4) of 30 runtime updates: UpdateExportOptions with {zero value, only ReadOnly, current, TransferSize -1/0/8192, Timeouts nil / all zero / all negative / DefaultTimeout 0, cache sizes 0, cache timeouts 0, MaxWorkers 0, connection fields 0/negative, Squash changed (+ other fields), Squash respelled in another letter case (+ other fields; accepted or rejected, but as a whole), rate limiting on with nil config}; UpdateTuningOptions mutators {TransferSize 0/negative, Timeouts nil, DefaultTimeout 0, operation timeouts negative, cache 0, MaxWorkers negative, connection 0, Log nil, all zero}; UpdatePolicyOptions {zero value, current, Squash changed, ReadOnly toggled}; states deduplicated on the reported configuration. After every update GetExportOptions is compared field by field with a model that applies the construction defaults, a rejected update must leave every field unchanged, and LOOKUP, READ (count>0) and WRITE (count>0 unless read-only) must be served without panic.",
+		rule: "breadth-first search over sequences (depth 3, thorough 4) of 30 runtime updates: UpdateExportOptions with {zero value, only ReadOnly, current, TransferSize -1/0/8192, Timeouts nil / all zero / all negative / DefaultTimeout 0, cache sizes 0, cache timeouts 0, MaxWorkers 0, connection fields 0/negative, Squash changed (+ other fields), Squash respelled in another letter case (+ other fields; accepted or rejected, but as a whole), rate limiting on with nil config}; UpdateTuningOptions mutators {TransferSize 0/negative, Timeouts nil, DefaultTimeout 0, operation timeouts negative, cache 0, MaxWorkers negative, connection 0, Log nil, all zero}; UpdatePolicyOptions {zero value, current, Squash changed, ReadOnly toggled}; states deduplicated on the reported configuration. After every update GetExportOptions is compared field by field with a model that applies the construction defaults, the live attribute cache, directory cache and worker pool must have the reported sizes and TTLs, a rejected update must leave every field unchanged, and LOOKUP, READ (count>0) and WRITE (count>0 unless read-only) must be served without panic.",
 		assumptions: []string{"the construction defaults are those documented on ExportOptions and re-implemented in the check (c24Defaults)", "Log/TLS/RateLimitConfig are compared for nil-ness only"},
 		run: func(c *vCtx) {
 			ops := c24Ops()
